@@ -77,6 +77,22 @@ Section Model.
     | Copy w' => (mkState w' None 0%nat, mkObs None 0%nat [])
     end.
 
+  (* Re-entrant delivery: a listener of the property assigns ANOTHER dependency from inside the property's own
+     notification (has_traits.py:319-326 is not guarded against re-entrance).  The outer handler has popped the
+     cache and trait_property_changed has fetched the new value v1 (cache refilled) when the listener is entered
+     with (old1, v1); its assignment stores the world w2 and runs the handler again, nested: the cache (now v1) is
+     popped, the value fetched again, the listeners notified with (v1, v2); then the outer call returns. *)
+  Definition step_nested (s : state) (w1 w2 : W) : state * obs :=
+    let old1 := if cached then cache s else None in
+    match listeners s with
+    | O => (mkState w1 None 0%nat, mkObs None 0%nat [])      (* nobody listens: nothing can re-enter *)
+    | S l =>
+        let '(s1, v1, n1) := read (mkState w1 None (S l)) in
+        let old2 := if cached then cache s1 else None in
+        let '(s2, v2, n2) := read (mkState w2 None (S l)) in
+        (s2, mkObs None (n1 + n2)%nat [(old1, v1); (old2, v2)])
+    end.
+
   Fixpoint run (s : state) (ops : list op) : list (op * obs) * state :=
     match ops with
     | [] => ([], s)
